@@ -98,3 +98,86 @@ Example ex_nil_chain :
            (fun o => ORange (nth 2 o PPanic)) ])
   = [ PMsg 0 None; PMsg 0 None; PMsg 0 None; PBool false; PList (TMsg 0) RNil; PScalar (VInt 0); PPanic; PPanic; PRange [] ].
 Proof. vm_compute. reflexivity. Qed.
+
+(* ---- translator tie for the remaining methods of fastReflection_T (DESIGN 12.7, task T18) --------------------------------
+   Model/ReflectMiscProg.v: the statement language of what proto_message.go / type.go print beside the eight per-field
+   methods (ProtoReflect, Descriptor, Type, New, Interface, GetUnknown with its nil guard, SetUnknown WITHOUT one, IsValid,
+   the ProtoMethods table, Zero / New / Descriptor of the message type), its interpreter over Reflect.v's heap, and
+   canon_mzprogs (the bodies the templates emit). Engine reflectmiscprog translates the generated source into this language
+   on every run and the driver checks translated = canonical (mzprogs_eqb). The statements are in Model/ReflectMiscProg.v,
+   the proofs in Proofs/ReflectMiscProgProofs.v; they hold for EVERY heap (hence for every heap with rp_heap_okb) and every
+   receiver, the typed nil pointer included. *)
+From CP Require Import ReflectProg ReflectMiscProg ReflectMiscProgProofs.
+
+Theorem getunknown_prog_correct : getunknown_prog_stmt.
+Proof. exact ReflectMiscProgProofs.getunknown_prog. Qed.
+
+Theorem setunknown_prog_correct : setunknown_prog_stmt.
+Proof. exact ReflectMiscProgProofs.setunknown_prog. Qed.
+
+Theorem isvalid_prog_correct : isvalid_prog_stmt.
+Proof. exact ReflectMiscProgProofs.isvalid_prog. Qed.
+
+(* GetUnknown of nil = no bytes, IsValid of nil = false, SetUnknown of nil = panic with the heap unchanged *)
+Theorem misc_nil_receiver_correct : misc_nil_receiver_stmt.
+Proof. exact ReflectMiscProgProofs.misc_nil_receiver. Qed.
+
+Theorem new_prog_correct : new_prog_stmt.
+Proof. exact ReflectMiscProgProofs.new_prog. Qed.
+
+Theorem type_new_prog_correct : type_new_prog_stmt.
+Proof. exact ReflectMiscProgProofs.type_new_prog. Qed.
+
+Theorem type_zero_prog_correct : type_zero_prog_stmt.
+Proof. exact ReflectMiscProgProofs.type_zero_prog. Qed.
+
+Theorem protoreflect_prog_correct : protoreflect_prog_stmt.
+Proof. exact ReflectMiscProgProofs.protoreflect_prog. Qed.
+
+Theorem interface_identity_correct : interface_identity_stmt.
+Proof. exact ReflectMiscProgProofs.interface_identity. Qed.
+
+Theorem descriptor_prog_correct : descriptor_prog_stmt.
+Proof. exact ReflectMiscProgProofs.descriptor_prog. Qed.
+
+(* the protoiface.Methods literal: exactly Size, Marshal, Unmarshal set, Merge and CheckInitialized nil, Flags = 3, for every receiver *)
+Theorem methods_prog_correct : methods_prog_stmt.
+Proof. exact ReflectMiscProgProofs.methods_prog. Qed.
+
+(* all at once: OGetUnknown / OSetUnknown / OIsValid / ONew / ONil executed with the canonical methods are Reflect.step *)
+Theorem reflect_misc_prog_correct : reflect_misc_prog_correct_stmt.
+Proof. exact ReflectMiscProgProofs.reflect_misc_prog_correct. Qed.
+
+Theorem reflect_misc_prog_correct_ok : reflect_misc_prog_correct_ok_stmt.
+Proof. exact ReflectMiscProgProofs.reflect_misc_prog_correct_ok. Qed.
+
+(* the driver's comparison decides equality, and methods found equal to the canonical ones behave as Reflect.step *)
+Theorem mzprogs_eqb_decides : mzprogs_eqb_stmt.
+Proof. exact ReflectMiscProgProofs.mzprogs_eqb_eq. Qed.
+
+Theorem translated_equal_is_step : forall sch progs,
+  (forall mid, match progs mid with Some ps => mzprogs_eqb ps (canon_mzprogs sch mid) = true | None => True end) ->
+  forall h o, rmz_step sch progs h o = Some (step sch h o).
+Proof. exact ReflectMiscProgProofs.translated_equal_is_step. Qed.
+
+(* ---- non-vacuity: the canonical methods on a real object and on the nil pointer; a SetUnknown WITH a nil guard (the shape
+   of seeded/C09_r5) is a different program and does not panic on nil ---------------------------------------------------- *)
+Example ex_reflect_misc_prog :
+  let sch := [ {| m_fields := [ {| f_num := 1; f_ty := TScalar KBytes; f_shape := Singular |} ]; m_oneofs := 0; m_impl := Pulsar |} ] in
+  let ps := canon_mzprogs sch 0 in
+  let h0 : heap := [] in
+  let '(h1, x) := step sch h0 (ONew 0) in
+  let u := [Coq.Init.Byte.x01; Coq.Init.Byte.x02] in
+  let guarded := mkMzProgs (z_protoreflect ps) (z_descriptor ps) (z_type ps) (z_new ps) (z_interface ps) (z_getunknown ps)
+                           [MZIfNilReturnVoid; MZStoreUnknown] (z_isvalid ps) (z_methods ps) (z_tzero ps) (z_tnew ps) (z_tdescriptor ps) in
+  x = PMsg 0 (Some 0) /\
+  rmz_step sch (canon_mz sch) h0 (ONew 0) = Some (h1, x) /\
+  run_mz_setunknown sch ps h1 x u = Some (step sch h1 (OSetUnknown x u)) /\
+  run_mz_getunknown sch ps (fst (step sch h1 (OSetUnknown x u))) x = Some (fst (step sch h1 (OSetUnknown x u)), PBytes u) /\
+  run_mz_setunknown sch ps h1 (PMsg 0 None) u = Some (h1, PPanic) /\
+  run_mz_setunknown sch guarded h1 (PMsg 0 None) u = Some (h1, PUnit) /\
+  mzprogs_eqb guarded ps = false /\
+  run_mz_type_zero sch (canon_mz sch) ps h1 x = Some (h1, PMsg 0 None) /\
+  run_mz_interface_reflect sch (canon_mz sch) ps h1 (PMsg 0 None) = Some (h1, PMsg 0 None) /\
+  mz_methods_law (z_methods ps) 0 = true.
+Proof. vm_compute. repeat split; reflexivity. Qed.
